@@ -189,7 +189,12 @@ fn deco_color(kind: u8, text: bool, custom: C) -> Option<C> {
 fn draw_and_compare(font: &MonoFont, s: &str, text: bool, bg: bool, ul: u8, st: u8, obs: &mut Obs) {
     let pos = (-3, 2);
     let style = char_style::<C>(font, text, bg, ul, st);
-    let t = Text::with_baseline(s, Point::new(pos.0, pos.1), style, Baseline::Top);
+    // the style must not depend on the order in which the builder was configured
+    let other = char_style_font_last::<C>(font, text, bg, ul, st);
+    if other != style {
+        obs.fail("style-independent-of-builder-order", format!("font set first: underline {:?} strikethrough {:?}; font set last: underline {:?} strikethrough {:?}", style.underline_color, style.strikethrough_color, other.underline_color, other.strikethrough_color));
+    }
+    let t = Text::with_baseline(s, Point::new(pos.0, pos.1), other, Baseline::Top);
     let mut d = RecD::<C>::new();
     t.draw(&mut d).unwrap();
     let mut nn = RecN::<C>::new();
